@@ -4,7 +4,7 @@
       every temperature 0.01 .. 350 degC, pressures from the listed lower limit (just above the
       saturation pressure up to 280 degC; 20 / 30 / 40 MPa above) to 100 MPa.
     Steam density (supst): relative difference <= 1 % (measured maximum 0.47 %) on [steam_region]:
-      100 .. 800 degC, from 12.5 kPa up to just below the saturation pressure of the interval's lower
+      100 .. 800 degC, from 100 kPa up to just below the saturation pressure of the interval's lower
       temperature (below 350 degC), up to 10 MPa (350 .. 650 degC), up to 20 MPa (650 .. 800 degC).
     Steam internal energy: relative difference <= 0.6 % (measured 0.28 %) on [steam_energy_region]:
       650 .. 800 degC x 5 .. 10 MPa (the tiles 550 .. 650 degC x 5 .. 10 MPa and 650 .. 800 degC x
@@ -40,20 +40,20 @@ Definition liquid_region (t p : R) : Prop :=
   (340 <= t <= 350 /\ 40000000 <= p <= 100000000).
 
 Definition steam_region (t p : R) : Prop :=
-  (100 <= t <= 150 /\ 12500 <= p <= 101000) \/
-  (150 <= t <= 200 /\ 12500 <= p <= 475000) \/
-  (200 <= t <= 250 /\ 12500 <= p <= 1550000) \/
-  (250 <= t <= 300 /\ 12500 <= p <= 3970000) \/
-  (300 <= t <= 350 /\ 12500 <= p <= 8580000) \/
-  (350 <= t <= 400 /\ 12500 <= p <= 10000000) \/
-  (400 <= t <= 450 /\ 12500 <= p <= 10000000) \/
-  (450 <= t <= 500 /\ 12500 <= p <= 10000000) \/
-  (500 <= t <= 550 /\ 12500 <= p <= 10000000) \/
-  (550 <= t <= 590 /\ 12500 <= p <= 10000000) \/
-  (590 <= t <= 650 /\ 12500 <= p <= 10000000) \/
-  (650 <= t <= 700 /\ 12500 <= p <= 20000000) \/
-  (700 <= t <= 750 /\ 12500 <= p <= 20000000) \/
-  (750 <= t <= 800 /\ 12500 <= p <= 20000000).
+  (100 <= t <= 150 /\ 100000 <= p <= 101000) \/
+  (150 <= t <= 200 /\ 100000 <= p <= 475000) \/
+  (200 <= t <= 250 /\ 100000 <= p <= 1550000) \/
+  (250 <= t <= 300 /\ 100000 <= p <= 3970000) \/
+  (300 <= t <= 350 /\ 100000 <= p <= 8580000) \/
+  (350 <= t <= 400 /\ 100000 <= p <= 10000000) \/
+  (400 <= t <= 450 /\ 100000 <= p <= 10000000) \/
+  (450 <= t <= 500 /\ 100000 <= p <= 10000000) \/
+  (500 <= t <= 550 /\ 100000 <= p <= 10000000) \/
+  (550 <= t <= 590 /\ 100000 <= p <= 10000000) \/
+  (590 <= t <= 650 /\ 100000 <= p <= 10000000) \/
+  (650 <= t <= 700 /\ 100000 <= p <= 20000000) \/
+  (700 <= t <= 750 /\ 100000 <= p <= 20000000) \/
+  (750 <= t <= 800 /\ 100000 <= p <= 20000000).
 
 Definition steam_energy_region (t p : R) : Prop :=
   (650 <= t <= 700 /\ 5000000 <= p <= 10000000) \/
@@ -87,20 +87,20 @@ Theorem steam_density_agrees_on_region t p : steam_region t p -> rel_stm t p <= 
 Proof.
   unfold steam_region. intros H.
   repeat match type of H with _ \/ _ => destruct H as [H|H] end; destruct H as [Ht Hp].
-  - destruct (Rle_dec p 25000); [apply (S0 t p); lra|destruct (Rle_dec p 50000); [apply (S1 t p); lra|destruct (Rle_dec p 100000); [apply (S2 t p); lra|apply (S3 t p); lra]]].
-  - destruct (Rle_dec p 25000); [apply (S4 t p); lra|destruct (Rle_dec p 50000); [apply (S5 t p); lra|destruct (Rle_dec p 100000); [apply (S6 t p); lra|apply (S7 t p); lra]]].
-  - destruct (Rle_dec p 25000); [apply (S8 t p); lra|destruct (Rle_dec p 50000); [apply (S9 t p); lra|destruct (Rle_dec p 100000); [apply (S10 t p); lra|destruct (Rle_dec p 1000000); [apply (S11 t p); lra|apply (S12 t p); lra]]]].
-  - destruct (Rle_dec p 25000); [apply (S13 t p); lra|destruct (Rle_dec p 50000); [apply (S14 t p); lra|destruct (Rle_dec p 100000); [apply (S15 t p); lra|destruct (Rle_dec p 1000000); [apply (S16 t p); lra|apply (S17 t p); lra]]]].
-  - destruct (Rle_dec p 25000); [apply (S18 t p); lra|destruct (Rle_dec p 50000); [apply (S19 t p); lra|destruct (Rle_dec p 100000); [apply (S20 t p); lra|destruct (Rle_dec p 1000000); [apply (S21 t p); lra|apply (S22 t p); lra]]]].
-  - destruct (Rle_dec p 25000); [apply (S23 t p); lra|destruct (Rle_dec p 50000); [apply (S24 t p); lra|destruct (Rle_dec p 100000); [apply (S25 t p); lra|destruct (Rle_dec p 1000000); [apply (S26 t p); lra|apply (S27 t p); lra]]]].
-  - destruct (Rle_dec p 25000); [apply (S28 t p); lra|destruct (Rle_dec p 50000); [apply (S29 t p); lra|destruct (Rle_dec p 100000); [apply (S30 t p); lra|destruct (Rle_dec p 1000000); [apply (S31 t p); lra|apply (S32 t p); lra]]]].
-  - destruct (Rle_dec p 25000); [apply (S33 t p); lra|destruct (Rle_dec p 50000); [apply (S34 t p); lra|destruct (Rle_dec p 100000); [apply (S35 t p); lra|destruct (Rle_dec p 1000000); [apply (S36 t p); lra|apply (S37 t p); lra]]]].
-  - destruct (Rle_dec p 25000); [apply (S38 t p); lra|destruct (Rle_dec p 50000); [apply (S39 t p); lra|destruct (Rle_dec p 100000); [apply (S40 t p); lra|destruct (Rle_dec p 1000000); [apply (S41 t p); lra|apply (S42 t p); lra]]]].
-  - destruct (Rle_dec p 25000); [apply (S43 t p); lra|destruct (Rle_dec p 50000); [apply (S44 t p); lra|destruct (Rle_dec p 100000); [apply (S45 t p); lra|destruct (Rle_dec p 1000000); [apply (S46 t p); lra|apply (S47 t p); lra]]]].
-  - destruct (Rle_dec p 25000); [apply (S48 t p); lra|destruct (Rle_dec p 50000); [apply (S49 t p); lra|destruct (Rle_dec p 100000); [apply (S50 t p); lra|destruct (Rle_dec p 1000000); [apply (S51 t p); lra|apply (S52 t p); lra]]]].
-  - destruct (Rle_dec p 25000); [apply (S53 t p); lra|destruct (Rle_dec p 50000); [apply (S54 t p); lra|destruct (Rle_dec p 100000); [apply (S55 t p); lra|destruct (Rle_dec p 1000000); [apply (S56 t p); lra|destruct (Rle_dec p 10000000); [apply (S57 t p); lra|apply (S58 t p); lra]]]]].
-  - destruct (Rle_dec p 25000); [apply (S59 t p); lra|destruct (Rle_dec p 50000); [apply (S60 t p); lra|destruct (Rle_dec p 100000); [apply (S61 t p); lra|destruct (Rle_dec p 1000000); [apply (S62 t p); lra|destruct (Rle_dec p 10000000); [apply (S63 t p); lra|apply (S64 t p); lra]]]]].
-  - destruct (Rle_dec p 25000); [apply (S65 t p); lra|destruct (Rle_dec p 50000); [apply (S66 t p); lra|destruct (Rle_dec p 100000); [apply (S67 t p); lra|destruct (Rle_dec p 1000000); [apply (S68 t p); lra|destruct (Rle_dec p 10000000); [apply (S69 t p); lra|apply (S70 t p); lra]]]]].
+  - apply (S3 t p); lra.
+  - apply (S7 t p); lra.
+  - destruct (Rle_dec p 1000000); [apply (S11 t p); lra|apply (S12 t p); lra].
+  - destruct (Rle_dec p 1000000); [apply (S16 t p); lra|apply (S17 t p); lra].
+  - destruct (Rle_dec p 1000000); [apply (S21 t p); lra|apply (S22 t p); lra].
+  - destruct (Rle_dec p 1000000); [apply (S26 t p); lra|apply (S27 t p); lra].
+  - destruct (Rle_dec p 1000000); [apply (S31 t p); lra|apply (S32 t p); lra].
+  - destruct (Rle_dec p 1000000); [apply (S36 t p); lra|apply (S37 t p); lra].
+  - destruct (Rle_dec p 1000000); [apply (S41 t p); lra|apply (S42 t p); lra].
+  - destruct (Rle_dec p 1000000); [apply (S46 t p); lra|apply (S47 t p); lra].
+  - destruct (Rle_dec p 1000000); [apply (S51 t p); lra|apply (S52 t p); lra].
+  - destruct (Rle_dec p 1000000); [apply (S56 t p); lra|destruct (Rle_dec p 10000000); [apply (S57 t p); lra|apply (S58 t p); lra]].
+  - destruct (Rle_dec p 1000000); [apply (S62 t p); lra|destruct (Rle_dec p 10000000); [apply (S63 t p); lra|apply (S64 t p); lra]].
+  - destruct (Rle_dec p 1000000); [apply (S68 t p); lra|destruct (Rle_dec p 10000000); [apply (S69 t p); lra|apply (S70 t p); lra]].
 Qed.
 
 Theorem steam_energy_agrees_on_region t p : steam_energy_region t p -> relu_stm t p <= 6 / 1000.
